@@ -47,7 +47,7 @@ NOT_DECIDED = ("*++b1",)     # backspace-skipping scans: while(--n1 > 0 && *++b1
 
 def run(rep, ctx):
     repo = ctx["repo"]
-    fn = [SR2 + r"::.*", r"mp::Lget", r"mp::decstring", r"mp::Read", r"mp::VecReader::.*",
+    fn = [SR2 + r"::.*", r"mp::Lget", r"mp::decstring", r"mp::Read", r"mp::[a-z_0-9]+", r"mp::VecReader::.*",
           r"mp::SuffixReader::.*"]
     jobs = [dict(unit="nl-writer2/src/nl-solver.cc", fn=fn, repo=repo,
                  rec=[r"mp::SufHead", r"mp::SufRead", SR2])]
